@@ -110,7 +110,7 @@ impl<'a> Explorer<'a> {
             Ok(x) => x,
             Err(e) => {
                 acc.violation(Violation {
-                    signature: "machinery|replay-divergence".into(),
+                    signature: "nondeterministic|choice-points-differ-between-runs".into(),
                     detail: format!("{} [{}]: {}", self.input.name, self.cfg.name(), e),
                     replay: replay_text(self.input, self.cfg, &prefix),
                 });
@@ -509,7 +509,7 @@ pub fn run(ctx: &Ctx) -> i32 {
                 refs.lock().unwrap().insert(idx as usize, (a.result, a.points));
             }
             (Err(e), _) | (_, Err(e)) => acc.violation(Violation {
-                signature: "machinery|replay-divergence".into(),
+                signature: "nondeterministic|choice-points-differ-between-runs".into(),
                 detail: format!("{} [{}]: {}", ins[i].name, cfg.name(), e),
                 replay: replay_text(&ins[i], cfg, &[]),
             }),
